@@ -133,3 +133,20 @@ def register(reg):
       "get_range laws (length, monotone, start <= k < end), begin+count+1 >= begin validated on the real functions each run; "
       "quick: ~7k cases + 9k checker evaluations; thorough: 16 worker processes.",
       "Lean 4 theorems over an abstract linear order + bit-for-bit differential of the Float instance + proved-sound checker on real outputs")
+
+  reg("C32", "proof",
+      "Everything import_csv._parse_open_file does after csv.reader (100-row sample, find_first_non_empty_row, "
+      "column_count_modal, _is_header, expand_headers, the include-headers logic, get_table_data padding / zip truncation, "
+      "empty-column removal) is modelled line by line (GristModel/CsvPost.lean). Proved for all row lists: "
+      "columns_equal_length (unconditional), and under the decidable hypotheses noPreamble (first row reaches modal-1 "
+      "non-empty cells; non-blank when headers are off) and noWideLate (no row after the sample wider than the sample): "
+      "one_entry_per_data_row_partial, csv_cells_kept_partial (every non-blank data cell at its row in the column at its "
+      "place among the kept columns), csv_headers_kept_partial. The full statement is REFUTED in Lean for each dropped "
+      "hypothesis (101-row witness, title-row witness) and the witnesses are replayed on the real parse_file "
+      "(known findings). Differentially validated only: model == parse_file on exhaustive small grids and random "
+      "rectangular/ragged grids written by csv.writer with explicit dialects; the property clauses are evaluated on "
+      "the real outputs; csv.reader/codecs line splitting is outside the model and checked by oracle (third known finding).",
+      "parameters: rows yielded by csv.reader (driven like the importer: codecs.open + same options) and _is_numeric "
+      "(float()/int()); cell conversion is identity because CSV cells are str (checked: type Any, str values); "
+      "non-empty = has a non-whitespace character; full dialect + encoding utf-8 + headers setting explicit; NUM_ROWS absent.",
+      "Lean 4 theorems over the post-reader model + refutation witnesses + differential correspondence")
